@@ -303,6 +303,11 @@ def scene_control(c):
     body.append("again: j++; if (j < %d) goto again; if (j == %d) goto out; acc += 7u; out: chk_u64(acc + j);" % (d(st.integers(1, 5)), d(st.integers(1, 5))))
     body.append("{ int a = %d, b = %d, r; r = (a++ > 0) && (b++ > 0); chk_i64(a * 100 + b * 10 + r); r = (a-- > 3) || (b-- > 0); chk_i64(a * 100 + b * 10 + r);"
                 " r = a > b ? (a += 5, a) : (b += 7, b); chk_i64(r + a + b); }" % (d(st.integers(-2, 4)), d(st.integers(-2, 4))))
+    # operands with side effects next to a constant that decides the result, in the places the compiler tries to fold: the first
+    # operand of ?:, an array length, an equality with a pointer
+    body.append("{ int n1 = %d, n2 = %d, n3 = 1; int r1 = (n1++ || 1) ? 10 : 20; int r2 = (n2++ && 0) ? 30 : 40; char va[(n3++ || 1) + 2]; int r3 = (--n1 && 0) ? 1 : (n2-- || 1) ? 2 : 3;"
+                " int *pz = ((n3 += 2) && 0) ? &n1 : 0; chk_i64(n1 * 10000 + n2 * 100 + n3); chk_i64(r1 + r2 + r3); chk_u64(sizeof va); chk_i64(pz == 0); chk_i64((0 && n1++) + (1 || n2++) + n1 + n2); }"
+                % (d(st.integers(-2, 2)), d(st.integers(-2, 2))))
     c.funcs.append("static void %s(void) {\n\t%s\n}" % (f, "\n\t".join(body)))
     c.calls.append("%s();" % f)
 
@@ -503,6 +508,9 @@ def scene_pointers(c):
              # pointer plus a run-time index minus a constant, in the positions where the compiler tries to fold (equality operands,
              # the first operand of ?:)
              "{ int k1 = %d, k2 = %d; chk_i64(q == a + k1 - 1); chk_i64(a + k2 - 1 != q); chk_i64((a + k1 - 1) ? 1 : 2); chk_i64(&a[k2] - 2 == a + k2 - 2); chk_i64(q == &p[k1] - 1); chk_i64((p + k1 - 1 == a + k1 - 1) ? k1 : k2); }" % (i2 + 1, max(2, min(i1 + 2, ln))),
+             # an integer of every width and signedness subtracted from and added to a pointer
+             "{ unsigned u1 = %d; unsigned char c1 = 1; unsigned short s1 = 1; unsigned long l1 = 1; long long ll1 = -1; chk_i64((a + %d) - u1 - a); chk_i64(&a[%d] - 1u - a);"
+             " chk_i64((a + %d) - c1 - s1 - a); chk_i64(&a[%d] - l1 - a); chk_i64((a + 1) + ll1 - a); chk_i64((a + u1) - a); chk_i64(q - 0u - a); }" % (min(i1, 1), ln - 1, ln - 1, ln, ln - 1),
              # equality with the operands in every order: null pointer constant first, void pointer first, const-qualified side
              "{ void *v = q; const void *cv = p; %s *z0 = 0; chk_i64(0 == q); chk_i64(0 != z0); chk_i64((void *)0 == z0); chk_i64((void *)0 != q); chk_i64(v == q); chk_i64(q == v);"
              " chk_i64(v != p); chk_i64(cv == p); chk_i64(p != cv); chk_i64(cv == v); chk_i64(0 == v); chk_i64(z0 == (void *)0); }" % et,
